@@ -116,7 +116,11 @@ def scenario_for(seed, index, tier):
                      ['compress', rng.choice([0, 64, 100000])])
     login.append(['success'])
     hist = []
-    for j in range(rng.randint(1, 14)):
+    # now and then a history longer than one read round of the networking
+    # thread (it reads at most 50 packets before it writes again)
+    n_hist = rng.randint(1, 14) if rng.random() < 0.95 \
+        else rng.choice([49, 50, 51, 60, 130])
+    for j in range(n_hist):
         k = rng.random()
         if k < 0.35:
             hist.append(['ka', 1000 + j])
